@@ -61,31 +61,30 @@ type Summary struct {
 var out = bufio.NewWriterSize(os.Stdout, 1<<16)
 
 // watchdog: a run that makes no progress for 60 s of real time is harness trouble (exit 3 with all stacks), never a verdict.
-var lastBeat atomic.Int64
+var beats atomic.Int64
 
-func beat() { lastBeat.Store(time.Now().UnixNano()) }
+// beat only bumps a counter: it may be called from inside a synctest bubble, where time.Now() is fake.
+func beat() { beats.Add(1) }
 
 func startWatchdog() {
-	beat()
-	go func() {
+	go func() { // outside any bubble: real time
+		last, since := beats.Load(), time.Now()
 		for {
 			time.Sleep(2 * time.Second)
-			if time.Since(time.Unix(0, lastBeat.Load())) > 60*time.Second {
+			if b := beats.Load(); b != last {
+				last, since = b, time.Now()
+				continue
+			}
+			if time.Since(since) > 90*time.Second {
 				buf := make([]byte, 1<<22)
 				n := runtime.Stack(buf, true)
-				syscall.Write(2, []byte("WATCHDOG: no progress for 60s\n"))
+				syscall.Write(2, []byte("WATCHDOG: no progress for 90s\n"))
 				syscall.Write(2, buf[:n])
-				fmt.Fprintf(os.Stdout, "@@ERR %q\n", "watchdog: a run made no progress for 60 s")
+				fmt.Fprintf(os.Stdout, "@@ERR %q\n", "watchdog: a run made no progress for 90 s")
 				os.Exit(3)
 			}
 		}
 	}()
-}
-
-func emit(tag string, v any) {
-	b, _ := json.Marshal(v)
-	fmt.Fprintf(out, "@@%s %s\n", tag, b)
-	out.Flush()
 }
 
 func TestWorker(t *testing.T) {
